@@ -816,8 +816,6 @@ pub fn check_ops<T: SSTable>(ctx: &mut Ctx, codec: &Codec<T>, case: &DictCase, d
                     lean_ops.push("skip".into());
                 }
             }
-        } else if parts[0] == "sorted" {
-            lean_ops.push("skip".into());
         } else {
             lean_ops.push(op.clone());
         }
@@ -959,8 +957,11 @@ pub fn check_ops<T: SSTable>(ctx: &mut Ctx, codec: &Codec<T>, case: &DictCase, d
                 let want: Vec<Vec<u8>> = ords.iter().filter_map(|o| sorted.get(*o as usize).map(|e| e.0.clone())).collect();
                 match real {
                     Ok(Ok(f)) => {
-                        if f != all_in || (f && got != want) || (!f && !want.starts_with(&got)) {
-                            bad(ctx, "oracle", "C15:sorted-ords-wrong", format!("sorted_ords_to_term_cb({ords:?}) returned {f} with {} keys", got.len()));
+                        let shown = format!("{}/{}", keys_field(&got), if f { 1 } else { 0 });
+                        if f != all_in || (f && got != want) || (!f && !want.starts_with(&got)) || shown != spec {
+                            bad(ctx, "oracle", "C15:sorted-ords-wrong", format!("sorted_ords_to_term_cb({ords:?}) returned {f} with {} keys; Lean spec {}", got.len(), &spec[..spec.len().min(60)]));
+                        } else if shown != model {
+                            bad(ctx, "model", "C15:sorted-ords-model", format!("sorted_ords_to_term_cb({ords:?}): real {} model {}", &shown[..shown.len().min(60)], &model[..model.len().min(60)]));
                         }
                     }
                     _ => bad(ctx, "oracle", "C15:sorted-ords-panics", "sorted_ords_to_term_cb panicked or failed".into()),
